@@ -4,20 +4,90 @@ import Proofs.C01.Walk
 import Proofs.C01.WalkSpec
 import Proofs.C01.Get
 import Proofs.C01.Local
-/-! Helper lemmas and proofs for C01 (see the sub-modules); here: the pieces that mention `getTokens`. -/
+import Proofs.C01.LoserBasic
+import Proofs.C01.LoserValid
+import Proofs.C01.LoserReplay
+import Proofs.C01.LoserInit
+import Proofs.C01.LoserNext
+import Proofs.C01.LoserDrain
+import Proofs.C01.LoserMerge
+/-! Helper lemmas and proofs for C01 (see the sub-modules); here: the token circle the ring really
+builds (`GetTokens` under any map iteration order) is the sorted token list, and the full-strength
+versions of `get_eq_spec` and the locality theorems. -/
+set_option linter.unusedSimpArgs false
 namespace PfC01
 open Common Ring C01
 
-/-- `get_eq_spec` for the token circle the ring really builds (`GetTokens` under map order `order`),
-under the guard that the loser-tree merge did not lose a token. -/
-theorem get_eq_spec_guarded (cfg : Cfg) (d order : Desc) (key : Nat) (op : Op) (now : Int) (hwf : WFRing d)
-    (hrf : 1 ≤ cfg.rf) (hmerge : getTokens order = sortedTokens d) :
+theorem flatten_map_sort_perm (order : Desc) :
+    (order.map fun i => sortNat i.tokens).flatten.Perm (order.flatMap (·.tokens)) := by
+  induction order with
+  | nil => exact List.Perm.refl _
+  | cons i order ih =>
+    simp only [List.map_cons, List.flatten_cons, List.flatMap_cons]
+    exact List.Perm.append (sortNat_perm _) ih
+
+theorem flatMap_perm {order d : Desc} (h : order.Perm d) :
+    (order.flatMap (·.tokens)).Perm (d.flatMap (·.tokens)) := by
+  induction h with
+  | nil => exact List.Perm.refl _
+  | cons x _ ih => simp only [List.flatMap_cons]; exact List.Perm.append_left _ ih
+  | swap x y l =>
+    simp only [List.flatMap_cons]
+    rw [← List.append_assoc, ← List.append_assoc]
+    exact List.Perm.append_right _ List.perm_append_comm
+  | trans _ _ ih1 ih2 => exact ih1.trans ih2
+
+/-- `Desc.GetTokens()` returns the ascending list of all tokens, whatever order Go iterates the map in. -/
+theorem getTokens_eq_sorted (d order : Desc) (hperm : order.Perm d) (hu : TokensU32 d) :
+    getTokens order = sortedTokens d := by
+  unfold getTokens
+  rw [loserMerge_spec]
+  · unfold sortedTokens
+    apply sorted_perm_eq _ _ (sortNat_sorted _) (sortNat_sorted _)
+    exact (sortNat_perm _).trans ((flatten_map_sort_perm order).trans ((flatMap_perm hperm).trans (sortNat_perm _).symm))
+  · intro l hl
+    rcases List.mem_map.mp hl with ⟨i, _, rfl⟩
+    exact sortNat_sorted _
+  · intro l hl x hx
+    rcases List.mem_map.mp hl with ⟨i, hi, rfl⟩
+    exact hu i (hperm.subset hi) x ((sortNat_perm _).subset hx)
+
+theorem tokensU32_filter (r : Inst → Bool) (d : Desc) (h : TokensU32 d) : TokensU32 (d.filter r) :=
+  fun i hi => h i (List.mem_filter.mp hi).1
+
+/-- `get_eq_spec`, full strength: for every map iteration order. -/
+theorem get_eq_spec_full (cfg : Cfg) (d order : Desc) (key : Nat) (op : Op) (now : Int) (hwf : WFRing d)
+    (hu : TokensU32 d) (hrf : 1 ≤ cfg.rf) (hperm : order.Perm d) :
     ((specGet cfg op d key now).ok = true →
       C01.get cfg d (getTokens order) key op now
         = .ok { instances := (specGet cfg op d key now).instances, maxErrors := (specGet cfg op d key now).maxErrors }) ∧
     ((specGet cfg op d key now).ok = false →
       C01.get cfg d (getTokens order) key op now = .error .emptyRing ∨
       C01.get cfg d (getTokens order) key op now = .error .tooManyUnhealthy) := by
-  rw [hmerge]; exact get_eq_spec cfg d key op now hwf hrf
+  rw [getTokens_eq_sorted d order hperm hu]; exact get_eq_spec cfg d key op now hwf hrf
+
+theorem lookup_local_remove_full (cfg : Cfg) (d order order' : Desc) (key : Nat) (op : Op) (now : Int) (xid : String)
+    (hwf : WFRing d) (hu : TokensU32 d) (hrf : 1 ≤ cfg.rf) (hperm : order.Perm d)
+    (hperm' : order'.Perm (d.filter (keepNot xid))) (hx : ∀ y ∈ specWalked cfg op d key, y.id ≠ xid) :
+    (C01.get cfg (d.filter (keepNot xid)) (getTokens order') key op now).toOption
+      = (C01.get cfg d (getTokens order) key op now).toOption := by
+  rw [getTokens_eq_sorted d order hperm hu,
+    getTokens_eq_sorted (d.filter (keepNot xid)) order' hperm' (tokensU32_filter _ d hu)]
+  exact lookup_local_remove cfg d key op now xid hwf hrf hx
+
+theorem lookup_local_add_full (cfg : Cfg) (d₁ d₂ order order' : Desc) (x : Inst) (key : Nat) (op : Op) (now : Int)
+    (hwf : WFRing (d₁ ++ x :: d₂)) (hu : TokensU32 (d₁ ++ x :: d₂)) (hrf : 1 ≤ cfg.rf)
+    (hperm : order.Perm (d₁ ++ x :: d₂)) (hperm' : order'.Perm (d₁ ++ d₂))
+    (hx : ∀ y ∈ specWalked cfg op (d₁ ++ x :: d₂) key, y.id ≠ x.id) :
+    (C01.get cfg (d₁ ++ x :: d₂) (getTokens order) key op now).toOption
+      = (C01.get cfg (d₁ ++ d₂) (getTokens order') key op now).toOption := by
+  have hu' : TokensU32 (d₁ ++ d₂) := by
+    intro i hi
+    apply hu i
+    rcases List.mem_append.mp hi with h | h
+    · exact List.mem_append.mpr (Or.inl h)
+    · exact List.mem_append.mpr (Or.inr (List.mem_cons_of_mem _ h))
+  rw [getTokens_eq_sorted _ order hperm hu, getTokens_eq_sorted _ order' hperm' hu']
+  exact lookup_local_add cfg d₁ d₂ x key op now hwf hrf hx
 
 end PfC01
